@@ -16,22 +16,28 @@ META = {
                  'simulated deeper behaviours plus the counterexamples of the historically defective clean-up are '
                  'replayed on the real partition.Subscribe of a one-node server; every recorded step judged by TLC '
                  '(trace validation against the same P_* predicates and the OneActive invariant)',
-    'level_text': 'TLC enumerates every interleaving of subscribe requests (sent to the partition leader or to an in-sync '
-                  'follower, with and without ReadISRReplica, 3 consumer ids incl. the same id again, epochs 1-3, valid '
-                  'and invalid positions, open-ended and bounded), subscription closes and subscribe-loop exits (a separate '
-                  'step, arbitrarily late) within the bounds and proves OneActive and the step predicates on the '
-                  'specification; the same behaviours are executed on the real code (loop exit made a controlled step '
-                  'by cancelling the context and waiting for subscriberCount) and each real state is re-judged by TLC.',
-    'level_note': 'One partition served by its leader and one in-sync follower (real two-server cluster), one or two '
+    'level_text': 'TLC enumerates every interleaving of subscribe requests (sent to either replica, with and without '
+                  'ReadISRReplica, 3 consumer ids incl. the same id again, epochs, valid and invalid positions, open-ended '
+                  'and bounded), subscription closes, subscribe-loop exits (a separate step, arbitrarily late), loop exits '
+                  'RACING with a subscribe (both critical sections in either order), concurrent subscribes and leader '
+                  'changes of the partition within the bounds and proves OneActive and the step predicates on the '
+                  'specification (outside the recorded open finding); the same behaviours are executed on the real code '
+                  'of a two-server cluster (loop exit made a controlled step by cancelling the context, leader change '
+                  'through the real election path, races by parking both contenders on consumersMu and handing the mutex '
+                  'over in FIFO order) and each real state is re-judged by TLC.',
+    'level_note': 'One partition on two servers (real cluster; L/F are server identities, ldr = who leads), one or two '
                   'groups plus plain subscriptions; requests vary in serving node, ReadISRReplica, group, consumer, epoch, '
-                  'valid/invalid positions and open-ended/bounded stop position. Steps are executed lock-step (Subscribe '
-                  'is atomic under consumersMu, Close under the subscription mutex, the loop clean-up under '
-                  'consumersMu - the interleavings of these critical sections are what is enumerated); real overlap of '
-                  'two Subscribe calls is only explored by Burst steps (two goroutines released together, schedule '
-                  'chosen by the Go runtime, quiescent state judged). "Active" = not closed and loop still running, '
-                  'counted over both servers. Bounds: quick <= 4 subscriptions / 7 steps exhaustive model, 5 steps '
-                  'replayed transition cover, 12 steps simulated; thorough 2 groups <= 4 / 6, cover 6 steps, 16 steps '
-                  'simulated. No leader change while subscriptions run; no read-only partition.',
+                  'valid/invalid positions and open-ended/bounded stop position. Lock-step steps interleave the critical '
+                  'sections (Subscribe under consumersMu, Close, loop clean-up under consumersMu); Race and Burst steps '
+                  'make two contenders meet at consumersMu (FIFO hand-over convoy: a section that lets go of the mutex and '
+                  're-takes it is overtaken; which schedule results is exploration, the quiescent state is judged). '
+                  'Recorded subscriptions are the real objects. "Active" = not closed and loop still running, counted '
+                  'over both servers. Bounds: quick <= 4 subscriptions / 6 steps / 2 leader changes exhaustive model, '
+                  'transition covers of 5 steps (no race / leader change) and 4 steps (with them) all replayed, 12 steps '
+                  'simulated; thorough 2 groups <= 4 / 6 and 1 group 7 steps with races and leader changes, covers of 6 '
+                  'and 5 steps, 16 steps simulated. Open finding: a member left running on the former leader after a '
+                  'leader change. Not covered: partition object replaced by a repeated resume, the gRPC handler above '
+                  'SubscribeInternal, read-only partitions.',
     'design_ref': 'DESIGN.md section 6/C13',
 }
 
